@@ -463,6 +463,38 @@ def run_case(ctx, spec, cases_k, cases_g, meta, kmeta, jit_cases, jit_meta):
             and np.allclose(P3, np.asarray(st_u.pred_mat), rtol=1e-10, atol=1e-12 * (1 + float(np.max(np.abs(P3)))))):
         viol("state after sample_and_update differs from update(feature, sampled target)", "sample_and_update_state")
 
+    # ---- the state must not alias the caller's arrays: overwrite every array handed in, results stay bit-identical --
+    Xa, Ya, Xta, xna, yna, na_ = X.copy(), Y.copy(), Xt.copy(), xnew.copy(), ynew.copy(), noise_arr.copy()
+    karg_a = kern if spec["cs2"] is None else (kern, np.array([spec["cs2"]]))
+    st_a = IncrementalUpdateGPPosteriorState(Xa, Ya, meanf, karg_a, na_)
+
+    def observe(st, with_update):
+        o = [np.asarray(v).copy() for v in st.predict(Xt.copy())]
+        if m == 1:
+            o.append(np.asarray(st.neg_log_likelihood()).copy())
+        if with_update:
+            s2 = st.update(xnew.copy(), ynew.copy())
+            o += [np.asarray(s2.chol_fact).copy(), np.asarray(s2.pred_mat).copy()]
+            o += [np.asarray(v).copy() for v in s2.predict(Xt.copy())]
+        return o
+    st_a.predict(Xta)                       # an earlier call whose test-input array is overwritten as well
+    st_b = st_a.update(xna, yna)
+    before, before_b = observe(st_a, True), observe(st_b, False)
+    for arr in (Xa, Xta, xna):
+        arr[...] = 1.0 - arr                # still valid inputs, but different ones
+    Ya[...] = Ya * -3.0 + 100.0
+    yna[...] = yna + 50.0
+    na_[...] = na_ * 7.0 + 1.0
+    if isinstance(karg_a, tuple):
+        karg_a[1][...] = karg_a[1] * 5.0
+    after, after_b = observe(st_a, True), observe(st_b, False)
+    if not all(np.array_equal(a_, b_) for a_, b_ in zip(before + before_b, after + after_b)):
+        viol("posterior state changed its predictions / likelihood / update after the caller overwrote the arrays it "
+             "had passed in (features, targets, test inputs, noise, covariance scale): the state aliases caller data",
+             "state_aliases_inputs")
+    if not (np.all(np.abs(before[0] - mu) <= 1e-12 * (1 + np.abs(mu))) and np.array_equal(before[1].reshape(-1), var)):
+        viol("two states built from equal data disagree", "state_not_deterministic")
+
     # ---- dense reference (numpy solve / slogdet on K + sigsq I) --------------------------
     A = K + sig_final * np.eye(n)
     cond = float(np.linalg.cond(A))
@@ -584,9 +616,16 @@ def run_case(ctx, spec, cases_k, cases_g, meta, kmeta, jit_cases, jit_meta):
             prm["mean_mean_value"] = mval
         gpr.set_params(prm)
         back = gpr.get_params()
-        gpr.recompute_states({"features": X, "targets": Y})
+        Xg, Yg = X.copy(), Y.copy()
+        gpr.recompute_states({"features": Xg, "targets": Yg})
         (gm, gv), = gpr.predict(Xt)
-        gm, gv = np.asarray(gm).reshape(-1), np.asarray(gv).reshape(-1)
+        gm, gv = np.asarray(gm).reshape(-1).copy(), np.asarray(gv).reshape(-1).copy()
+        Xg[...] = 1.0 - Xg
+        Yg[...] = Yg + 100.0
+        (gm2, gv2), = gpr.predict(Xt.copy())
+        if not (np.array_equal(gm, np.asarray(gm2).reshape(-1)) and np.array_equal(gv, np.asarray(gv2).reshape(-1))):
+            viol("GaussianProcessRegression.predict changed after the caller overwrote the data arrays given to "
+                 "recompute_states: the posterior state aliases caller data", "state_aliases_inputs")
         # the noise went through the encoding once more: allow its relative change
         same = abs(float(back["noise_variance"]) - noise) <= 8 * EPS * noise and all(
             abs(float(back["kernel_" + k_]) - float(v)) <= 8 * EPS * abs(float(v)) for k_, v in got.items())
@@ -667,7 +706,7 @@ def run(ctx, replay=None):
     ctx.rule += ("; PLUS composite kernels (WarpedKernel with 1..3 Warping blocks incl. non-contiguous ranges and "
                  "Kumaraswamy parameters away from 1, ProductKernelFunction, RangeKernelFunction, "
                  "ExponentialDecayResourcesKernelFunction as plain kernels): kernel matrices, predict, likelihood, "
-                 "incremental-vs-scratch against an independent numpy implementation (no Coq model for these)")
+                 "incremental-vs-scratch against an independent numpy implementation; PLUS a few LARGE data sets (n 64/128/260, covariance scale and noise at the ends of their boxes): likelihood and two predictions against the slogdet-based dense reference; PLUS, for every state, all input arrays are overwritten in place afterwards and predict / likelihood / update must be bit-identical")
     if replay is not None:
         if replay.get("kind") == "gpc":
             import warnings
@@ -679,13 +718,20 @@ def run(ctx, replay=None):
                 ctx.violation("correspondence", "model composite kernel matrix differs from the implementation", case=ck_meta[i],
                               failing_input=False, broken="correspondence chk_ckernel (model/GPLin.v warped/product/range kernel)")
             return
+        if replay.get("kind") == "gpl":
+            import warnings
+            with warnings.catch_warnings():
+                warnings.simplefilter("ignore")
+                gplin_composite.run_large(ctx, replay["spec"])
+            return
         if replay.get("kind") != "gp":
             return
         specs = [replay["spec"]]
-        cspecs = []
+        cspecs, lspecs = [], []
     else:
         specs = [gen_spec(rng) for _ in range(ctx.n(400, 3000))]
         cspecs = [gplin_composite.gen_spec(rng) for _ in range(ctx.n(250, 2000))]
+        lspecs = [gplin_composite.gen_large(rng, k_) for k_ in range(ctx.n(6, 36))]
     cases_k, cases_g, meta, kmeta, jit_cases, jit_meta = [], [], [], [], [], []
     ck_cases, ck_meta = [], []
     import warnings
@@ -708,6 +754,8 @@ def run(ctx, replay=None):
             if info is not None and info["sub"] == "warp" and info["warping_blocks"] >= 2 and nsamp < 1:
                 nsamp += 1
                 ctx.samples.insert(0, info)
+        for lspec in lspecs:
+            gplin_composite.run_large(ctx, lspec)
     for i in ctx.coq_bad_cases("kernel", IMPORTS, PRELUDE, "chk_kernel", cases_k, shard=40):
         ctx.violation("correspondence", "model Matern-5/2 kernel matrix differs from Matern52.forward/diagonal "
                       "beyond round-off", case=kmeta[i], failing_input=False,
